@@ -184,7 +184,7 @@ func genC16Name(rt *rapid.T) string {
 		}
 	}
 	if rapid.IntRange(0, 7).Draw(rt, "tldLetters") == 0 { // a name part that contains the letters of a TLD (its own or the other one)
-		name = rapid.SampledFrom([]string{"superjkl", "myibc", "jklabs", "ibcx", "jkl", "ibc", "ajkl", "jkljkl", "a.jkl", "xibcjkl", "JKLabs", "ujkl"}).Draw(rt, "tldName")
+		name = rapid.SampledFrom([]string{"superjkl", "myibc", "jklabs", "ibcx", "jkl", "ibc", "ajkl", "jkljkl", "a.jkl", "xibcjkl", "JKLabs", "ujkl", "jkl1vault", "jkl1", "jkl1-x", "JKL1q"}).Draw(rt, "tldName") // the last ones begin like an address of this chain
 		n = len(name)
 	}
 	tld := rapid.SampledFrom([]string{"jkl", "ibc"}).Draw(rt, "tld")
